@@ -918,6 +918,7 @@ Lemma poll_add_gen_ok : forall g p fd ev key st, inv st ->
   inv (snd (poll_add_gen g p fd ev key st)) /\ opframe st (snd (poll_add_gen g p fd ev key st)).
 Proof.
   intros g p fd ev key st I. unfold poll_add_gen.
+  destruct (fx_pollreuse (fx st) && existsb (fd_is_live fd) (polls st)); [split; [exact I|apply opframe_refl]|].
   destruct (poll_slot_spec st I) as (I1 & F1 & U1 & O1 & (e0 & N0 & E0)). destruct (poll_slot st) as [i s1]. cbn [fst snd] in *.
   unfold fresh_uid. set (n := next_uid s1). set (s2 := set_next_uid (n + 1) s1).
   assert (I2 : inv s2) by (apply inv_bump_uid; exact I1).
